@@ -1,5 +1,6 @@
 import ErbiumModel.Util
 import ErbiumModel.Judge.C12
+import ErbiumModel.Judge.Pool
 /-! Line-protocol driver. stdin: `<suite> <input tokens> => <implementation observation>`;
     stdout: `<correspondence verdict> | <oracle verdict>` per line. -/
 open Erbium Util
@@ -10,6 +11,7 @@ def judge (suite : String) (inp obs : List String) : Verdict :=
   | "dhcpparse" => Judge.C12.judgeParse inp obs
   | "frame" => Judge.C12.judgeFrame inp obs
   | "bflag" => Judge.C12.judgeBflag inp obs
+  | "pool" => Judge.Pool.judge inp obs
   | _ => badInput ("unknown-suite:" ++ suite)
 
 def judgeLine (line : String) : String :=
